@@ -135,29 +135,42 @@ def shape_errors(window, n, allow_empty=False):
 
 def spec_step(stored, n, md, c, replay=False):
     """The property's rule for one accepted commit c = (offset, position, ts) on the stored commits (oldest first).
-    Returns (new stored, tag) or (None, tag) when the property does not pin the payload (position already stored
-    with a different payload)."""
+    Returns (alternatives, tag): the list of windows the property text allows afterwards, or None when it does not pin
+    the payload (position already stored with a different payload).
+
+    Two outcomes are allowed when c's timestamp is EARLIER than its stored predecessor's: the code reads "closer in time
+    than the minimum distance" as the signed difference new - previous < distance (so such a commit always replaces its
+    predecessor, even at distance 0); the text can also be read as |difference| < distance, or as "not earlier and
+    closer".  The oracle demands neither: it accepts the merged and the unmerged window (tag .../signed-gap)."""
     full = len(stored) == n
     fl = "full" if full else "nonfull"
     same = [s for s in stored if s[1] == c[1]]
     if same:
         # a replayed commit changes nothing; which payload stays when two different commits claim one log position
         # is not stated by the property
-        return (stored if replay else None), "drop-duplicate/%s" % fl
+        return ([stored] if replay else None), "drop-duplicate/%s" % fl
     lo = [s for s in stored if s[1] < c[1]]
     hi = [s for s in stored if s[1] > c[1]]
     where = "append" if not hi else ("prepend" if not lo else "insert")
-    if lo and (c[2] - lo[-1][2]) < md * 1000:
-        pv = lo[-1]
-        if full and len(lo) == 1 and hi:
-            where = "insert-above-oldest(replace-oldest)"
-        return lo[:-1] + [(c[0], c[1], pv[2])] + hi, "%s/%s/merge" % (where, fl)
+    # the window if c takes a slot of its own
     if not full:
-        return lo + [c] + hi, "%s%s/%s/nomerge" % (where, "-into-blank" if where == "prepend" else "", fl)
+        own, own_tag = lo + [c] + hi, "%s%s/%s/nomerge" % (where, "-into-blank" if where == "prepend" else "", fl)
+    elif not lo:
+        own, own_tag = stored, "drop-older-than-full-window/full"
+    else:
+        t = where if len(lo) > 1 or where == "append" else "insert-above-oldest(replace-oldest)"
+        own, own_tag = lo[1:] + [c] + hi, "%s/full/nomerge" % t
     if not lo:
-        return stored, "drop-older-than-full-window/full"
-    tag = where if len(lo) > 1 or where == "append" else "insert-above-oldest(replace-oldest)"
-    return lo[1:] + [c] + hi, "%s/full/nomerge" % tag
+        return [own], own_tag
+    pv = lo[-1]
+    gap = c[2] - pv[2]
+    mwhere = "insert-above-oldest(replace-oldest)" if (full and len(lo) == 1 and hi) else where
+    merged, merged_tag = lo[:-1] + [(c[0], c[1], pv[2])] + hi, "%s/%s/merge" % (mwhere, fl)
+    if 0 <= gap < md * 1000:
+        return [merged], merged_tag
+    if gap < 0:
+        return [merged, own], merged_tag + "/signed-gap"
+    return [own], own_tag
 
 
 def topn_applicable(md, accepted):
@@ -188,6 +201,7 @@ class Oracle:
         self.n, self.expire, self.md = int(head[1]), int(head[2]), int(head[3])
         self.ops = ops
         self.tags = []
+        self.ambiguous = False     # set by check(): some step had more than one allowed outcome (or none pinned)
 
     def applicable(self):
         """only B / C / FX operations, all on cluster 1 (group 1, topic 1, partition 0), a broker offset first"""
@@ -207,8 +221,9 @@ class Oracle:
         """-> list of failure texts (empty: the property's oracle holds on this reply)."""
         segs = SC.segments(outline)
         errs = []
-        stored = []            # expected stored commits by the property's rules; None = not pinned until next fetch
+        states = [[]]          # windows the property's rules allow at this point; None = not pinned until next fetch
         accepted = []
+        self.ambiguous = False
         si = 0
         for idx, o in enumerate(self.ops):
             if o[0] == "C":
@@ -220,8 +235,20 @@ class Oracle:
                 accepted.append(c)
                 # a true replay: no other payload was ever seen for this log position
                 replay = all(a == c for a in accepted if a[1] == c[1])
-                if stored is not None:
-                    stored, tag = spec_step(stored, self.n, self.md, c, replay)
+                if states is not None:
+                    nxt, tag = [], None
+                    for st in states:
+                        alts, tg = spec_step(st, self.n, self.md, c, replay)
+                        tag = tag or tg          # the histogram follows the first (the code's) reading
+                        if alts is None:
+                            nxt = None
+                            break
+                        for a in alts:
+                            if a not in nxt:
+                                nxt.append(a)
+                    if nxt is None or len(nxt) > 1:
+                        self.ambiguous = True
+                    states = nxt if (nxt is not None and len(nxt) <= 64) else None
                     self.tags.append(tag)
                 else:
                     self.tags.append("after-unpinned")
@@ -250,16 +277,23 @@ class Oracle:
                 mx = max(c[1] for c in accepted)
                 if not w or w[-1] is None or w[-1][1] != mx:
                     errs.append("op %d: newest-last: last entry %s, greatest log position seen %d" % (idx, w[-1] if w else None, mx))
-                if stored is not None:
-                    if got != stored:
-                        errs.append("op %d: merge/slot rule: stored %s, the property's rules give %s" % (idx, got, stored))
+                # stored is made of arrived commits: (offset, position) of one, timestamp of one not later in the log
+                for e in got:
+                    if not any(a[0] == e[0] and a[1] == e[1] for a in accepted):
+                        errs.append("op %d: stored (offset %d, position %d) is not an arrived commit" % (idx, e[0], e[1]))
+                    elif not any(a[2] == e[2] and a[1] <= e[1] for a in accepted):
+                        errs.append("op %d: stored timestamp %d at position %d is not that of an arrived commit at or before it" % (idx, e[2], e[1]))
+                if states is not None:
+                    if got not in states:
+                        errs.append("op %d: merge/slot rule: stored %s, the property's rules give %s" %
+                                    (idx, got, states[0] if len(states) == 1 else "one of %s" % states))
                 if topn_applicable(self.md, accepted):
                     exp = topn(self.n, accepted)
                     if got != exp:
                         errs.append("op %d: top-N: stored %s, newest %d of the commits seen are %s" % (idx, got, self.n, exp))
                 if errs:
                     break
-                stored = got        # re-synchronise (only matters after an unpinned duplicate)
+                states = [got]      # re-synchronise on what the implementation chose among the allowed windows
             elif o[0] in SC.FETCH:
                 si += 1
         return errs
@@ -338,3 +372,22 @@ def derive_ring_lines(line):
             lo.append("FX %d 1 1" % now)
         out.append("hist %d %d %d 1 1 deny 0 %d %s" % (n, expire, md, len(lo), " ".join(lo)))
     return out
+
+
+def reading_ambiguous(line):
+    """True if the property text leaves the outcome of some arrival of this history open: some partition receives a
+    commit later in the log with an earlier timestamp than another one (signed vs absolute "closer in time"), or two
+    different payloads for one log position.  Over-approximation (any such pair, not only adjacent stored ones)."""
+    _, ops = SC.split_history(line)
+    per = {}
+    for o in ops:
+        if o[0] == "C":
+            per.setdefault(tuple(o[2:6]), []).append((int(o[6]), int(o[7]), int(o[8])))
+    for cs in per.values():
+        for a in cs:
+            for b in cs:
+                if a[1] < b[1] and a[2] > b[2]:
+                    return True
+                if a[1] == b[1] and a != b:
+                    return True
+    return False
